@@ -15,6 +15,29 @@ abbrev fieldBOps (p : ℕ) [Fact p.Prime] : BOps (ZMod p) := ringBOps (ZMod p) (
 theorem natCast_sub_self {p : ℕ} (k : ℕ) (hk : k ≤ p) : ((p - k : ℕ) : ZMod p) = -(k : ZMod p) := by
   rw [Nat.cast_sub hk, ZMod.natCast_self, zero_sub]
 
+
+-- ------------------------------------------------------------------------------------------------ closed computations
+/-- from a closed computation on naturals to the `p`-th power of `φ` (degree 2) -/
+theorem phi_pow_of_powN2 {p : ℕ} {s t : ZMod p} (sN tN : ℕ) (hs : (sN : ZMod p) = s) (ht : (tN : ZMod p) = t)
+    (fuel : ℕ) (hp : p < 2 ^ fuel) (u v : ℕ) (hk : powN2 p sN tN fuel (1, 0) (0, 1) p = (u, v)) :
+    (PQ2.φ : PQ2 (ZMod p) s t) ^ p = ⟨u, v⟩ := by
+  have := castN2_pow sN tN hs ht fuel (1, 0) (0, 1) p hp
+  rw [hk] at this
+  have e1 : castN2 s t (1, 0) = 1 := by ext <;> simp [castN2]
+  have e2 : castN2 s t (0, 1) = PQ2.φ := by ext <;> simp [castN2]
+  rw [e1, e2, one_mul] at this
+  exact this.symm
+
+/-- from a closed computation on naturals to a power in `PQ3 (ZMod p) s t` -/
+theorem pow_of_powN3 {p : ℕ} {s t : ZMod p} (sN tN : ℕ) (hs : (sN : ZMod p) = s) (ht : (tN : ZMod p) = t)
+    (fuel : ℕ) (e : ℕ) (he : e < 2 ^ fuel) (a r : ℕ × ℕ × ℕ) (hk : powN3 p sN tN fuel (1, 0, 0) a e = r) :
+    castN3 s t a ^ e = castN3 s t r := by
+  have := castN3_pow sN tN hs ht fuel (1, 0, 0) a e he
+  rw [hk] at this
+  have e1 : castN3 s t (1, 0, 0) = 1 := by ext <;> simp [castN3]
+  rw [e1, one_mul] at this
+  exact this.symm
+
 section Deg2
 variable {p : ℕ} [Fact p.Prime] {s t : ZMod p}
 
